@@ -12,32 +12,66 @@ use super::ProtoReadError;
 use crate::driver::DriverError;
 use crate::error::ApplicationClose;
 use std::future::pending;
+use std::future::Future;
+use std::pin::Pin;
+use wtransport_proto::frame::Frame;
+
+type ReadFrame =
+    Pin<Box<dyn Future<Output = (StreamSession, Result<Frame<'static>, ProtoReadError>)> + Send>>;
 
 pub struct ConnectStream {
     stream: Option<StreamSession>,
+
+    // The frame read in progress (it owns the stream meanwhile). It is kept here and not in the
+    // future of `run`, because the driver drops that future whenever another branch of its
+    // select loop completes: the bytes already consumed of an incomplete frame must survive.
+    reading: Option<ReadFrame>,
 }
 
 impl ConnectStream {
     pub fn empty() -> Self {
-        Self { stream: None }
+        Self {
+            stream: None,
+            reading: None,
+        }
     }
 
     pub fn is_empty(&self) -> bool {
-        self.stream.is_none()
+        self.stream.is_none() && self.reading.is_none()
     }
 
     pub fn set_stream(&mut self, stream: StreamSession) {
         self.stream = Some(stream);
     }
 
-    pub async fn run(&mut self) -> DriverError {
-        let stream = match self.stream.as_mut() {
-            Some(stream) => stream,
-            None => pending().await,
-        };
+    async fn read_frame(&mut self) -> Result<Frame<'static>, ProtoReadError> {
+        if self.reading.is_none() {
+            let mut stream = match self.stream.take() {
+                Some(stream) => stream,
+                None => pending().await,
+            };
 
+            self.reading = Some(Box::pin(async move {
+                let frame = stream.read_frame().await;
+                (stream, frame)
+            }));
+        }
+
+        let (stream, frame) = self
+            .reading
+            .as_mut()
+            .expect("read in progress just set")
+            .await;
+
+        self.reading = None;
+        self.stream = Some(stream);
+
+        frame
+    }
+
+    pub async fn run(&mut self) -> DriverError {
         loop {
-            return match stream.read_frame().await {
+            return match self.read_frame().await {
                 Ok(frame) => {
                     if !matches!(frame.kind(), FrameKind::Data) {
                         debug!("Skipping non-data frame of kind {:?}", frame.kind());
